@@ -283,6 +283,21 @@ def skip_all(R, ctx, rid="C20.skip-all"):
     R.require(rid, "positive-control", n_top >= 1, ctx.where(fn), "%d early exits under the top-level filter" % n_top)
 
 
+def filters_installed(R, ctx, rid="C20.metadata"):
+    """The per-rule filters read from a rule object are the ones the rule ends up with (decided as C19.metadata)."""
+    from .. import report
+    from . import c19
+    scratch = report.Report("C19", R.tier)
+    c19.roundtrip(scratch, ctx)
+    R.rule(rid, "the `apply_to_files` / `skip_files` lists read from a rule object reach the rule: in the reader, set_metadata follows configure(), or no rule's "
+                "configure() -- evaluated from its typed tree with the metadata marked beforehand -- replaces the metadata it finds (the obligations of "
+                "C19.metadata, evaluated here again). A rule whose filters are lost on loading runs on every file")
+    got = [o for o in scratch.obligations if o["rule"] == "C19.metadata"]
+    for o in got:
+        R.ob(rid, o["key"], o["ok"], o.get("where", ""), o.get("detail", ""))
+    R.require(rid, "floor", len(got) >= 2, "", "%d obligations" % len(got))
+
+
 def run(R, ctx):
     R.explanation = (
         "The two filter predicates are evaluated (sa/peval.py) on all 7x7 apply/skip list states built from a matching and a non-matching "
@@ -296,3 +311,4 @@ def run(R, ctx):
     glob(R, ctx)
     filter_path(R, ctx)
     skip_all(R, ctx)
+    filters_installed(R, ctx)
